@@ -276,6 +276,8 @@ impl Runner {
                     // the bounded run loop on a fresh copy of the case's pre-state (RAND-free programs:
                     // the chain of single steps recorded before is the independent accounting)
                     let mut st2 = build(pre);
+                    self.probe.calls.store(0, Ordering::SeqCst);   // sleeps of the single-step chain do not count
+                    let _ = self.take_ticks();
                     let iset = &mut self.iset;
                     let t0 = std::time::Instant::now();
                     let r = catch_unwind(AssertUnwindSafe(|| PushInterpreter::run(&mut st2, iset)));
